@@ -167,6 +167,9 @@ func main() {
 	var normOverlay map[string][]byte
 	normTried := false
 	constTried := false
+	rerollTried := false
+	var rerolls []*Prog
+	var rerollDone [][]string
 	var inls []*Prog
 	var inlDone [][]string
 	inlTried := false
@@ -196,9 +199,9 @@ func main() {
 				}
 			}
 		}
-		if !constTried {
+		if !constTried && (hasNewHelpers(p) || rep.failing(vdir) > 0) {
 			constTried = true
-			if hasNewHelpers(p) {
+			{
 				bp, bo := p, overlay
 				if norm != nil {
 					bp, bo = norm, normOverlay
@@ -344,6 +347,72 @@ func main() {
 				}
 				if bestRep == nil || rep3.failing(vdir) <= bestRep.failing(vdir) {
 					bestRep, bestCtx = rep3, c3
+				}
+			}
+			// last resort: bodies of pinned functions written out at a call site are rolled back into calls (reroll.go),
+			// and that program is judged as it stands and with its extracted helpers expanded
+			if wasFailing && rep.failing(vdir) > 0 && (bestRep != nil || len(inls) == 0 || true) {
+				if !rerollTried {
+					rerollTried = true
+					bp, bo := p, overlay
+					if norm != nil {
+						bp, bo = norm, normOverlay
+					}
+					if files, done := RerollPinned(bp, bo, pinnedView(bp)); len(done) > 0 {
+						merged := map[string][]byte{}
+						for k, v := range bo {
+							merged[k] = v
+						}
+						for k, v := range files {
+							merged[k] = v
+						}
+						if os.Getenv("FCHECK_DEBUG") != "" {
+							fmt.Println("re-rolled:", done)
+							if d := os.Getenv("FCHECK_DUMP_INLINED"); d != "" {
+								for k, v := range files {
+									os.WriteFile(filepath.Join(d, "reroll_"+filepath.Base(k)), v, 0o644)
+								}
+							}
+						}
+						if np, err := Load(*repo, merged, "", true); err == nil {
+							rerolls = append(rerolls, np)
+							rerollDone = append(rerollDone, done)
+							for _, shared := range []bool{false, true} {
+								f2, d2 := InlineSingleUse(*repo, merged, np, 5, shared)
+								if len(d2) == 0 {
+									continue
+								}
+								if q, err := Load(*repo, f2, "", true); err == nil {
+									rerolls = append(rerolls, q)
+									rerollDone = append(rerollDone, append(append([]string{}, done...), d2...))
+								}
+							}
+						} else if os.Getenv("FCHECK_DEBUG") != "" {
+							fmt.Println("re-rolled program discarded:", err)
+						}
+					}
+				}
+				for ri, rp := range rerolls {
+					rep4 := NewReport(id, *tier, seed)
+					c4 := NewCtx(rp, rep4, *tier)
+					runProp(c4, props[id])
+					rep4.Analysed["rerolled_and_inlined"] = rerollDone[ri]
+					if os.Getenv("FCHECK_DEBUG") != "" {
+						for _, o := range rep4.Obs {
+							if o.Verdict != OK {
+								fmt.Printf("re-rolled program: %s %s: %s: %s: %s\n", o.Verdict, o.Pos, o.Rule, o.Construct, o.Reason)
+							}
+						}
+					}
+					if rep4.failing(vdir) == 0 {
+						rep4.Add(id+".normalisation", "written-out bodies of pinned functions rolled back into calls", "-", OK, "")
+						rep, c = rep4, c4
+						bestRep = nil
+						break
+					}
+					if bestRep == nil || rep4.failing(vdir) <= bestRep.failing(vdir) {
+						bestRep, bestCtx = rep4, c4
+					}
 				}
 			}
 			if bestRep != nil && bestRep.failing(vdir) < rep.failing(vdir) {
